@@ -97,7 +97,7 @@ theorem syncLoop_ok (f : Bytes) (l : List Nat) (budget : Nat) (saved : Option Fr
 
 /-- `MPEGInfo(fileobj)` on every byte string: a value or HeaderNotFoundError("can't sync to MPEG frame") -/
 theorem parse_clean (f : Bytes) (e : PyErr) (h : parse f = .error e) : e = .mutagen := by
-  unfold parse at h
+  unfold parse parseFrom at h
   simp only [] at h
   obtain ⟨r, hr⟩ := syncLoop_ok f (syncScan f (skipId3 f (f.length + 1) 0) (1024 * 1024)) 1500 none
   rw [hr] at h
